@@ -113,6 +113,7 @@ fn addr<T>(r: &T) -> usize {
 pub struct Src<'a, T> {
     pub it: std::vec::IntoIter<T>,
     pub pulled: &'a Cell<usize>,
+    pub hint: u8,
 }
 impl<T> Iterator for Src<'_, T> {
     type Item = T;
@@ -123,6 +124,17 @@ impl<T> Iterator for Src<'_, T> {
             self.pulled.set(self.pulled.get() + 1);
         }
         x
+    }
+    /// what the source reports as size_hint; every variant is truthful (a lower bound that is
+    /// not above, an upper bound that is not below the number of items still to come)
+    fn size_hint(&self) -> (usize, Option<usize>) {
+        let n = self.it.len();
+        match self.hint & 3 {
+            0 => (n, Some(n)),
+            1 => (0, None),
+            2 => (n, None),
+            _ => (0, Some(n)),
+        }
     }
 }
 
@@ -951,6 +963,7 @@ where
         let len = scale(c.wrapping_mul(2), 2 * N + 3);
         let keys = self.gen_keys(a, b, len);
         let by_ref = KD::K::IS_COPY && (a & 1 == 1);
+        let hint = b >> 3;
         {
             let Some(slot) = self.slots[w].as_mut() else { return };
             let cx = &mut *self.cx;
@@ -982,10 +995,10 @@ where
             let m = &mut slot.c.m;
             let r = if by_ref {
                 let refs: Vec<&KD::K> = items.iter().collect();
-                let src = Src { it: refs.into_iter(), pulled: &pulled };
+                let src = Src { it: refs.into_iter(), pulled: &pulled, hint };
                 Self::lib(cx, || KD::K::extend_by_ref(m, src))
             } else {
-                let src = Src { it: items.into_iter(), pulled: &pulled };
+                let src = Src { it: items.into_iter(), pulled: &pulled, hint };
                 Self::lib(cx, || m.extend(src))
             };
             cx.log(|| format!("extend{}[{w}]({keys:?}) -> {r:?}   (model: overflow at {overflow_at:?})", if by_ref { "(&T)" } else { "" }));
@@ -1024,7 +1037,10 @@ where
                         }
                     }
                 }
-                Err(p) => fault = unexpected(cx, liar, P16, &p),
+                Err(p) => {
+                    let owner = if overflow_at.is_none() { P16.and(Prop::C03).and(Prop::C07) } else { P16 };
+                    fault = unexpected(cx, liar, owner, &p)
+                }
             }
             self.groups |= 1;
         }
@@ -1116,7 +1132,9 @@ where
         let liar = self.liar;
         let mut fault = self.drop_slot1();
         self.cloned = false;
-        let sub = scale(c, 3);
+        // c is a 7-bit argument (the top bit of the byte selects the container)
+        let sub = (c as usize * 3) >> 7;
+        let hint = c;
         let len = if sub == 2 { N } else { scale(a, 3 * N + 3) };
         let keys = self.gen_keys(a, b, len);
         let cx = &mut *self.cx;
@@ -1152,11 +1170,11 @@ where
         let pulled = Cell::new(0usize);
         let r: Result<St<KD, N>, Pk> = match sub {
             0 => {
-                let src = Src { it: items.into_iter(), pulled: &pulled };
+                let src = Src { it: items.into_iter(), pulled: &pulled, hint };
                 Self::lib(cx, || St::<KD, N>::from_iter(src))
             }
             1 => {
-                let src = Src { it: items.into_iter(), pulled: &pulled };
+                let src = Src { it: items.into_iter(), pulled: &pulled, hint };
                 Self::lib(cx, || src.collect::<St<KD, N>>())
             }
             _ => {
@@ -1219,7 +1237,10 @@ where
                     cx.chk(P16.and(Prop::C03), overflow_at.is_some(), "spurious-overflow", || format!("{} panicked although only {} distinct elements were supplied to a set of {N}", names[sub], want.len()));
                 }
             }
-            Err(p) => fault |= unexpected(cx, liar, P16, &p),
+            Err(p) => {
+                let owner = if overflow_at.is_none() { P16.and(Prop::C03) } else { P16 };
+                fault |= unexpected(cx, liar, owner, &p)
+            }
         }
         self.note_fault(fault, true);
         self.cur_target = 1;
